@@ -106,6 +106,8 @@ class Sim:
             strat = S.RoundRobin(quantum=1 + self.seed % 3)
         elif self.strategy == "random":
             strat = S.RandomFair(self.seed)
+        elif self.strategy == "starve":
+            strat = S.RandomStarve(self.seed, hot=getattr(self, "hot_labels", ()))
         elif self.strategy == "pct":
             strat = S.PCT(self.seed, depth=3, est_len=400)
         else:
